@@ -69,8 +69,10 @@ CHECKS = {
              'stack invariant I_stack of the engine (entries spell runs of their rule automata) not discharged'),
     'C06': C('4 C06', 'exact LL(1) table obligations (T) + VCs of _token_to_transition and convert_leaf + generated derivations covering every automaton arc (bounded)',
              'T: FIRST-exact transitions, plan chains, no nullable rule, no FOLLOW conflict on all 9 tables; D: token->label; every token '
-             'becomes a leaf of the kind of its token type (keyword iff reserved NAME); B: one derivation per arc, strict parse returns '
-             'the collapsed derivation with the same leaf kinds, recovering parse identical',
+             'becomes a leaf of the kind of its token type (keyword iff reserved NAME); the push loop of _add_token performs the table '
+             'step; B: one derivation per automaton arc, one per (arc, rule using the arc\'s rule) and one per pair of consecutive '
+             'arcs of a rule, 1 (quick) / 3 (thorough) spellings: strict parse returns the collapsed derivation with the same leaf '
+             'kinds, recovering parse identical',
              'M-LL1 paper lemma; I_stack not discharged'),
     'C07': C('4 C07', 'VCs of what strict mode raises (exception-object postconditions), frame/effect obligations over the real call graph, '
              'VCs of _recovery_tokenize and the parser constructors; relational bounded contract',
@@ -83,7 +85,8 @@ CHECKS = {
     'C08': C('4 C08', 'exact certificates on all rules/states/transitions of all shipped grammars (T) + enumerated small EBNF grammars (bounded)',
              'T: language equivalence with an independent Thompson NFA per rule, subset-construction and simplification '
              'certificates, FIRST-exact transitions with push chains, reserved strings, LL(1)/left-recursion facts; B: every '
-             '2-rule grammar up to size 3/4: rejected iff not LL(1), else certificates',
+             '2-rule grammar up to 3 symbol occurrences (thorough: larger symbol set, plus 4 occurrences over 3 symbols, 1.9 million '
+             'grammars): rejected iff not LL(1), else certificates',
              'graph algorithms themselves not proved (certificate route); M-SUBSET'),
     'C09': C('4 C09', 'RegLan obligations on the live patterns (z3) + VCs of PrefixPart and of the f-string / illegal-name helpers; bounded token-stream contract',
              'D: dispatch facts of the pseudo-token pattern (9 versions), part invariants and totality of the prefix re-lexer '
@@ -139,9 +142,12 @@ CHECKS = {
              'returns normally has written the item to the entry\'s file, whatever was there, and no other file changed (the repair clause); '
              'clear_inactive_cache hands os.remove only files not accessed for the survival time (or the caller\'s threshold) at a clock reading of '
              'the call; _touch opens in append mode only; _remove_cache_and_update_lock touches only the lock path and runs the clean-up with the '
-             'default threshold; B: every truncation offset, 9 corruptions, 288 fault injections, on-disk repair after every corruption',
+             'default threshold; B: every truncation offset, 9 corruptions, 288 fault injections, on-disk repair after every corruption, two '
+             'processes parsing the same files through one cache directory (entries removed under each other; 12 rounds quick, 120 thorough); '
+             'thorough: every truncation offset of four modules incl. a source file of the repository, partial overwrites, rotations',
              'the os / pathlib / pickle / time primitives are assumed contracts (ext:...; listed in the evidence); floats of time and stat are '
-             'mathematical numbers; atomic replace / two-process interleavings not modelled'),
+             'mathematical numbers; interleavings of two processes are sampled by the run-time scenario, not enumerated; bit flips inside a '
+             'valid pickle are outside the property\'s fault model (no checksum)'),
     'C18': C('4 C18', 'frame (modifies) obligations over the call graph of parse/iter_errors/tokenize; run-time frame monitor (bounded)',
              'D: no reachable function writes a shared object, module global, class attribute or mutable default except two '
              'write-once memo tables; no ambient reads; B: deep fingerprint of shared state, repeat/history independence, '
